@@ -1,9 +1,12 @@
 //! C15 — codecs: runs the real encoders/decoders on generated inputs and emits, per case,
 //! the Coq term comparing the implementation's observable output with the model
 //! (GV.Codec.Run) plus the round-trip oracle evaluated on the implementation itself.
+use grafeo_common::types::{EdgeId, NodeId, PropertyKey, Value};
+use grafeo_core::graph::lpg::PropertyStorage;
+use grafeo_core::index::ChunkedAdjacency;
 use grafeo_core::storage::{
-    BitPackedInts, DeltaBitPacked, DeltaEncoding, RunLengthEncoding, SignedRunLengthEncoding,
-    zigzag_decode, zigzag_encode,
+    BitPackedInts, BitVector, CompressionCodec, DeltaBitPacked, DeltaEncoding, DictionaryBuilder,
+    RunLengthEncoding, SignedRunLengthEncoding, TypeSpecificCompressor, zigzag_decode, zigzag_encode,
 };
 use gv_harness::*;
 
@@ -544,6 +547,419 @@ fn case_srle(r: &mut Rng, out: &mut Out) {
     });
 }
 
+
+// ---------------------------------------------------------------- second part (Model2 / Run2)
+
+fn coq_bools(bs: &[bool]) -> String {
+    coq::list(bs.iter().map(|&b| coq::b(b)))
+}
+
+fn case_bitvec(r: &mut Rng, out: &mut Out) {
+    let n = match r.below(8) {
+        0 => 0,
+        1 => 1,
+        2 => *r.pick(&[63usize, 64, 65, 127, 128, 129, 191, 192, 193]),
+        _ => r.below(200) as usize,
+    };
+    let dens = r.below(4);
+    let bs: Vec<bool> = (0..n)
+        .map(|_| match dens {
+            0 => false,
+            1 => true,
+            2 => r.chance(1, 8),
+            _ => r.chance(1, 2),
+        })
+        .collect();
+    let v = BitVector::from_bools(&bs);
+    let mut idx: Vec<usize> = vec![0, n.saturating_sub(1), n, n + 1, 63, 64, 65];
+    for _ in 0..8 {
+        idx.push(r.below(n as u64 + 2) as usize);
+    }
+    let gets: Vec<(usize, Option<bool>)> = idx.iter().map(|&i| (i, v.get(i))).collect();
+    let bools = v.to_bools();
+    let ones = v.count_ones();
+    let bytes = v.to_bytes();
+    let rp = BitVector::from_bytes(&bytes).ok().map(|x| x.to_bools());
+    let mut pv = BitVector::new();
+    for &b in &bs {
+        pv.push(b);
+    }
+    let mut ok = bools == bs && ones == bs.iter().filter(|&&b| b).count() && rp.as_deref() == Some(&bs[..]);
+    ok &= pv.to_bools() == bs && pv.count_ones() == ones && v.count_zeros() == n - ones;
+    ok &= v.iter().collect::<Vec<_>>() == bs;
+    ok &= v.ones_iter().collect::<Vec<_>>() == (0..n).filter(|&i| bs[i]).collect::<Vec<_>>();
+    ok &= v.not().not().to_bools() == bs;
+    for (i, g) in &gets {
+        if *g != bs.get(*i).copied() {
+            ok = false;
+        }
+    }
+    let o = format!(
+        "(ObsBv {} {} {} {} {} {} {} {})",
+        coq::zlist_u64(v.data()),
+        coq::z(v.len() as i64),
+        coq::list(gets.iter().map(|(i, g)| coq::pair(&coq::z(*i as i64), &coq::opt(g.map(coq::b))))),
+        coq_bools(&bools),
+        coq::z(ones as i64),
+        coq::bytes(&bytes),
+        coq::opt(rp.as_ref().map(|b| coq_bools(b))),
+        coq::zlist_u64(pv.data())
+    );
+    out.emit(&Case {
+        kind: "bitvec".into(),
+        input: format!("{:?}", bs.iter().map(|&b| if b { '1' } else { '0' }).collect::<String>()),
+        coq: Some(format!("chk_bitvec {} {}", coq_bools(&bs), o)),
+        oracle: if ok { Oracle::Ok } else { Oracle::Fail },
+        msg: if ok { String::new() } else { "bit vector get/to_bools/count/bytes/push differ from the input".into() },
+        nontrivial: n >= 2 && bs.iter().any(|&b| b) && bs.iter().any(|&b| !b),
+        imp: format!("len={} ones={}", v.len(), ones),
+        tags: vec![format!("bv-len:{}", len_bucket(n))],
+        ..Default::default()
+    });
+}
+
+fn gen_str(r: &mut Rng) -> String {
+    match r.below(6) {
+        0 => String::new(),
+        1 => "é→".to_string(),
+        2 => format!("k{}", r.below(3)),
+        3 => format!("val{}", r.below(6)),
+        4 => "a".repeat(r.below(5) as usize),
+        _ => format!("s{}", r.below(50)),
+    }
+}
+
+fn case_dict(r: &mut Rng, out: &mut Out) {
+    let n = match r.below(6) {
+        0 => 0,
+        1 => 1,
+        2 => *r.pick(&[63usize, 64, 65, 128, 129]),
+        _ => r.below(40) as usize,
+    };
+    let nulls = r.below(3);
+    let vs: Vec<Option<String>> = (0..n)
+        .map(|_| if nulls > 0 && r.chance(nulls, 6) { None } else { Some(gen_str(r)) })
+        .collect();
+    let mut b = DictionaryBuilder::new();
+    for v in &vs {
+        b.add_optional(v.as_deref());
+    }
+    let d = b.build();
+    let mut idx: Vec<usize> = (0..n.min(70)).collect();
+    idx.extend([n, n + 1, 63, 64, 65]);
+    for _ in 0..6 {
+        idx.push(r.below(n as u64 + 2) as usize);
+    }
+    let gets: Vec<(usize, Option<String>)> = idx.iter().map(|&i| (i, d.get(i).map(|s| s.to_string()))).collect();
+    let mut ok = d.len() == n;
+    for (i, g) in &gets {
+        let want = vs.get(*i).cloned().flatten();
+        if *g != want {
+            ok = false;
+        }
+    }
+    let it: Vec<Option<String>> = d.iter().map(|o| o.map(|s| s.to_string())).collect();
+    ok &= it == vs;
+    let o = format!(
+        "(ObsDict {} {} {})",
+        coq::list(d.dictionary().iter().map(|s| coq::str_bytes(s))),
+        coq::list(d.codes().iter().map(|&c| coq::z(c as i64))),
+        coq::list(gets.iter().map(|(i, g)| coq::pair(&coq::z(*i as i64), &coq::opt(g.as_ref().map(|s| coq::str_bytes(s))))))
+    );
+    out.emit(&Case {
+        kind: "dict".into(),
+        input: format!("{:?}", vs),
+        coq: Some(format!("chk_dict {} {}", coq::list(vs.iter().map(|v| coq::opt(v.as_ref().map(|s| coq::str_bytes(s))))), o)),
+        oracle: if ok { Oracle::Ok } else { Oracle::Fail },
+        msg: if ok { String::new() } else { "dictionary get/iter differ from the input".into() },
+        nontrivial: n >= 2 && vs.iter().any(|v| v != &vs[0]),
+        imp: format!("dict_size={} len={}", d.dictionary_size(), d.len()),
+        tags: vec![format!("dict-nulls:{}", nulls)],
+        ..Default::default()
+    });
+}
+
+fn codec_coq(c: &CompressionCodec) -> String {
+    match c {
+        CompressionCodec::None => "CNone".into(),
+        CompressionCodec::DeltaBitPacked { bits } => format!("(CDbp {})", coq::z(*bits as i64)),
+        CompressionCodec::BitPacked { bits } => format!("(CBp {})", coq::z(*bits as i64)),
+        CompressionCodec::RunLength => "CRle".into(),
+        other => format!("(* unexpected {:?} *) CNone", other),
+    }
+}
+
+fn case_compress(r: &mut Rng, out: &mut Out) {
+    let (mut xs, tag) = gen_u_list(r);
+    // the selector needs >= 8 values to do anything: pad some cases
+    if xs.len() < 8 && r.chance(2, 3) {
+        let extra = 8 + r.below(30) as usize;
+        let base = xs.clone();
+        while xs.len() < extra {
+            let v = if base.is_empty() { r.below(5) } else { *r.pick(&base) };
+            xs.push(v);
+        }
+        if r.chance(1, 2) {
+            xs.sort();
+        }
+    }
+    let x2 = xs.clone();
+    let res = catch(move || {
+        let c = TypeSpecificCompressor::compress_integers(&x2);
+        let d = TypeSpecificCompressor::decompress_integers(&c).ok();
+        (c.codec, c.data.clone(), d)
+    });
+    let (coqt, oracle, msg, imp, ctag) = match &res {
+        Err(m) => ("false".to_string(), Oracle::Fail, format!("compress_integers panics: {}", m), "panic".to_string(), "panic".to_string()),
+        Ok((codec, data, dec)) => {
+            let ok = dec.as_deref() == Some(&xs[..]);
+            (
+                format!(
+                    "chk_compress {} {} {} {}",
+                    coq::zlist_u64(&xs),
+                    codec_coq(codec),
+                    coq::bytes(data),
+                    coq::opt(dec.as_ref().map(|d| coq::zlist_u64(d)))
+                ),
+                if ok { Oracle::Ok } else { Oracle::Fail },
+                if ok { String::new() } else { "decompress_integers(compress_integers(xs)) != xs".into() },
+                format!("codec={:?} decoded={:?}", codec, dec),
+                codec.name().to_string(),
+            )
+        }
+    };
+    out.emit(&Case {
+        kind: "compress".into(),
+        input: format!("{:?}", xs),
+        coq: Some(coqt),
+        oracle,
+        msg,
+        nontrivial: xs.len() >= 8,
+        imp,
+        tags: vec![format!("u:{}", tag), format!("codec:{}", ctag)],
+        ..Default::default()
+    });
+    // signed path (zig-zag then the same selector): oracle only
+    let (ys, _) = gen_i_list(r);
+    let y2 = ys.clone();
+    let res = catch(move || {
+        let c = TypeSpecificCompressor::compress_signed_integers(&y2);
+        TypeSpecificCompressor::decompress_integers(&c).ok().map(|v| v.into_iter().map(zigzag_decode).collect::<Vec<i64>>())
+    });
+    let ok = matches!(&res, Ok(Some(d)) if *d == ys);
+    out.emit(&Case {
+        kind: "compress_signed".into(),
+        input: format!("{:?}", ys),
+        oracle: if ok { Oracle::Ok } else { Oracle::Fail },
+        msg: if ok { String::new() } else { "signed compress round trip".into() },
+        nontrivial: nontrivial_i(&ys),
+        imp: format!("{:?}", res),
+        ..Default::default()
+    });
+    // booleans
+    let bs: Vec<bool> = (0..gen_len(r)).map(|_| r.chance(1, 2)).collect();
+    let c = TypeSpecificCompressor::compress_booleans(&bs);
+    let ok = TypeSpecificCompressor::decompress_booleans(&c).ok().as_deref() == Some(&bs[..]);
+    out.emit(&Case {
+        kind: "compress_bool".into(),
+        input: format!("{} bools", bs.len()),
+        oracle: if ok { Oracle::Ok } else { Oracle::Fail },
+        msg: if ok { String::new() } else { "boolean compress round trip".into() },
+        nontrivial: bs.len() >= 2,
+        imp: String::new(),
+        ..Default::default()
+    });
+}
+
+fn case_chunk(r: &mut Rng, out: &mut Out) {
+    // one source node, all entries in ONE chunk: add -> compact -> freeze_all -> edges_from
+    let n = match r.below(6) {
+        0 => 1,
+        1 => 2,
+        2 => *r.pick(&[63usize, 64]),
+        _ => 1 + r.below(40) as usize,
+    };
+    let dst_mode = r.below(4);
+    let entries: Vec<(u64, u64)> = (0..n)
+        .map(|i| {
+            let d = match dst_mode {
+                0 => r.below(4),
+                1 => r.below(1 << 20),
+                2 => 0,
+                _ => gen_u64(r) >> r.below(3),
+            };
+            let e = if r.chance(1, 10) { gen_u64(r) } else { i as u64 * (1 + r.below(3)) };
+            (d, e)
+        })
+        .collect();
+    let adj = ChunkedAdjacency::with_chunk_capacity(64);
+    let src = NodeId::new(7);
+    for (d, e) in &entries {
+        adj.add_edge(src, NodeId::new(*d), EdgeId::new(*e));
+    }
+    let before: Vec<(u64, u64)> = adj.edges_from(src).into_iter().map(|(d, e)| (d.as_u64(), e.as_u64())).collect();
+    adj.compact();
+    adj.freeze_all();
+    let after: Vec<(u64, u64)> = adj.edges_from(src).into_iter().map(|(d, e)| (d.as_u64(), e.as_u64())).collect();
+    let mut a = before.clone();
+    let mut b = after.clone();
+    a.sort();
+    b.sort();
+    let ok = a == b && before == entries && adj.out_degree(src) == n;
+    let pl = |v: &Vec<(u64, u64)>| coq::list(v.iter().map(|(d, e)| coq::pair(&coq::zu(*d), &coq::zu(*e))));
+    out.emit(&Case {
+        kind: "adj_chunk".into(),
+        input: format!("{:?}", entries),
+        coq: Some(format!("chk_chunk {} {}", pl(&entries), pl(&after))),
+        oracle: if ok { Oracle::Ok } else { Oracle::Fail },
+        msg: if ok { String::new() } else { "neighbour list changed as a multiset when its chunk was compressed".into() },
+        nontrivial: n >= 2,
+        imp: format!("after={:?}", after),
+        tags: vec![format!("chunk-n:{}", len_bucket(n)), format!("dst-mode:{}", dst_mode)],
+        ..Default::default()
+    });
+    // several chunks incl. hot->cold migration and deletions: oracle only (multiset preserved)
+    let adj = ChunkedAdjacency::with_chunk_capacity(4 + r.below(6) as usize);
+    let m = 20 + r.below(120) as usize;
+    let mut live: Vec<(u64, u64)> = Vec::new();
+    for i in 0..m {
+        let d = r.below(6);
+        adj.add_edge(src, NodeId::new(d), EdgeId::new(i as u64));
+        live.push((d, i as u64));
+        if r.chance(1, 9) {
+            adj.compact();
+        }
+        if r.chance(1, 15) && !live.is_empty() {
+            let k = r.below(live.len() as u64) as usize;
+            let (_, e) = live.remove(k);
+            adj.mark_deleted(src, EdgeId::new(e));
+        }
+        if r.chance(1, 40) {
+            adj.freeze_all();
+        }
+    }
+    adj.compact();
+    adj.freeze_all();
+    let mut got: Vec<(u64, u64)> = adj.edges_from(src).into_iter().map(|(d, e)| (d.as_u64(), e.as_u64())).collect();
+    got.sort();
+    live.sort();
+    let ok = got == live && adj.out_degree(src) == live.len();
+    out.emit(&Case {
+        kind: "adj_multi".into(),
+        input: format!("{} adds", m),
+        oracle: if ok { Oracle::Ok } else { Oracle::Fail },
+        msg: if ok { String::new() } else { format!("live edges {:?} but edges_from gives {:?}", live, got) },
+        nontrivial: true,
+        imp: format!("{} live", live.len()),
+        ..Default::default()
+    });
+}
+
+fn pval_coq(v: &Value) -> String {
+    match v {
+        Value::Int64(i) => format!("(PInt {})", coq::z(*i)),
+        Value::String(s) => format!("(PStr {})", coq::str_bytes(s.as_ref())),
+        Value::Bool(b) => format!("(PBool {})", coq::b(*b)),
+        Value::Null => "(POther 0)".into(),
+        Value::Float64(f) => format!("(POther {})", coq::zu(f.to_bits())),
+        _ => "(POther 1)".into(),
+    }
+}
+
+fn case_column(r: &mut Rng, out: &mut Out) {
+    let st: PropertyStorage<NodeId> = PropertyStorage::new();
+    let key = PropertyKey::new("p");
+    let nids = 12 + r.below(30);
+    let dominant = r.below(4); // 0 int, 1 str, 2 bool, 3 mixed
+    let nops = 30 + r.below(90) as usize;
+    let mut ops: Vec<String> = Vec::new();
+    let mut shadow: std::collections::HashMap<u64, Value> = std::collections::HashMap::new();
+    let mut ok = true;
+    let mut why = String::new();
+    let mut compressions = 0;
+    let gen_val = |r: &mut Rng| -> Value {
+        let k = if r.chance(5, 6) { dominant } else { r.below(4) };
+        match k {
+            0 => Value::Int64(if r.chance(1, 8) { gen_i64(r) } else { r.range(0, 40) }),
+            1 => Value::String(gen_str(r).as_str().into()),
+            2 => Value::Bool(r.chance(1, 2)),
+            _ => match r.below(3) {
+                0 => Value::Int64(r.range(-3, 3)),
+                1 => Value::Float64(r.below(5) as f64),
+                _ => Value::Null,
+            },
+        }
+    };
+    let is_comp = |st: &PropertyStorage<NodeId>| st.compression_stats().get(&key).and_then(|s| s.codec).is_some();
+    for step in 0..nops {
+        let id = r.below(nids);
+        match if step < 14 { 0 } else { r.below(10) } {
+            0..=3 => {
+                let v = gen_val(r);
+                st.set(NodeId::new(id), key.clone(), v.clone());
+                ops.push(format!("OSet {} {}", coq::zu(id), pval_coq(&v)));
+                shadow.insert(id, v);
+            }
+            4..=6 => {
+                let g = st.get(NodeId::new(id), &key);
+                ops.push(format!("OGet {} {}", coq::zu(id), coq::opt(g.as_ref().map(pval_coq))));
+                let want = shadow.get(&id).cloned();
+                if g.as_ref().map(pval_coq) != want.as_ref().map(pval_coq) {
+                    ok = false;
+                    why = format!("get({}) = {:?} but the value set last is {:?} (compressions so far: {})", id, g, want, compressions);
+                }
+            }
+            7 => {
+                let g = st.remove(NodeId::new(id), &key);
+                ops.push(format!("ORemove {} {}", coq::zu(id), coq::opt(g.as_ref().map(pval_coq))));
+                let want = shadow.remove(&id);
+                if g.as_ref().map(pval_coq) != want.as_ref().map(pval_coq) {
+                    ok = false;
+                    why = format!("remove({}) = {:?} but the value set last is {:?}", id, g, want);
+                }
+            }
+            _ => {
+                let before = is_comp(&st);
+                st.force_compress_all();
+                let after = is_comp(&st);
+                let took = if !before && after {
+                    compressions += 1;
+                    let codec = st.compression_stats().get(&key).and_then(|s| s.codec).unwrap();
+                    Some(match codec {
+                        CompressionCodec::Dictionary => "KStr",
+                        CompressionCodec::BitVector => "KBool",
+                        _ => "KInt",
+                    })
+                } else {
+                    None
+                };
+                ops.push(format!("OCompress {}", coq::opt(took.map(|s| s.to_string()))));
+            }
+        }
+    }
+    // final sweep: every id reads back the value set last
+    for id in 0..nids {
+        let g = st.get(NodeId::new(id), &key);
+        ops.push(format!("OGet {} {}", coq::zu(id), coq::opt(g.as_ref().map(pval_coq))));
+        let want = shadow.get(&id).cloned();
+        if g.as_ref().map(pval_coq) != want.as_ref().map(pval_coq) {
+            ok = false;
+            why = format!("final get({}) = {:?} but the value set last is {:?}", id, g, want);
+        }
+    }
+    out.emit(&Case {
+        kind: "column".into(),
+        input: format!("[{}]", ops.join("; ")),
+        coq: Some(format!("chk_column {}", coq::list(ops.iter().map(|o| format!("({})", o))))),
+        oracle: if ok { Oracle::Ok } else { Oracle::Fail },
+        msg: why,
+        nontrivial: compressions > 0,
+        imp: format!("compressions={}", compressions),
+        tags: vec![format!("col-dominant:{}", dominant), format!("col-compressions:{}", compressions.min(3))],
+        ..Default::default()
+    });
+}
+
 fn main() {
     let a = parse_args();
     quiet_panics();
@@ -559,7 +975,12 @@ fn main() {
     case_dbp(&mut r, &mut out, Some(vec![1]));
     case_dbp(&mut r, &mut out, Some(vec![]));
     for i in 0..a.cases {
-        match i % 9 {
+        match i % 14 {
+            9 => case_bitvec(&mut r, &mut out),
+            10 => case_dict(&mut r, &mut out),
+            11 => case_compress(&mut r, &mut out),
+            12 => case_chunk(&mut r, &mut out),
+            13 => case_column(&mut r, &mut out),
             0 => case_zigzag(&mut r, &mut out),
             1 => case_delta_u(&mut r, &mut out),
             2 => case_delta_s(&mut r, &mut out, None),
